@@ -11,6 +11,12 @@ Model (independent of chibicc, works on the ORIGINAL bytes of each file):
     characters read in phase 1 up to that token, i.e. spliced new-lines count;
   * `__LINE__`/`__FILE__` written as a source token on physical line L: presumed line of L / presumed name there, also inside the
     arguments of a macro invocation;
+  * C11 6.10.4p5: the operands of `#line` that do not have one of the two literal forms are macro-replaced first (object-like macros
+    defined in any file read so far or predefined on the command line, `__LINE__` = presumed line of the directive, `__FILE__` =
+    presumed name there); the result must be `digit-sequence ["s-char-sequence"]`.  A directive has the same effect however its
+    operands were spelled.  `# N "f"` (the GNU form) is only modelled with literal operands;
+  * every `#include` reads the header afresh (line 1, own name, no #line in effect) no matter how often and from where it was included
+    before; `#ifndef G` / `#define G` ... `#endif` and `#pragma once` are modelled as far as include guards need them;
   * a small macro expander (object-like and function-like macros without # / ## / variadics, defined by #define lines of the files):
     a token that comes from a replacement list has the position of the macro name token of its invocation, and if that name token
     itself comes from a replacement list, of that one's invocation, and so on: `__LINE__` in the body of a macro reports the line
@@ -129,6 +135,11 @@ _pptok = re.compile(r"(?:u8|u|U|L)?\"(?:[^\"\\\n]|\\.)*\"|(?:u|U|L)?'(?:[^'\\\n]
                     r"|\.?[0-9](?:[eEpP][+-]|[A-Za-z0-9_.])*|\S")
 _probe_name = re.compile(r"^vp(\d+)$")
 _line = re.compile(r"^\s*#\s*(?:line\s+)?(\d+)(?:\s+\"([^\"]*)\")?\s*(?:\d+\s*)*$")
+_linex = re.compile(r"^\s*#\s*line\b(.*)$")
+_ifndef = re.compile(r"^\s*#\s*ifndef\s+([A-Za-z_]\w*)\s*$")
+_endif = re.compile(r"^\s*#\s*endif\s*$")
+_once = re.compile(r"^\s*#\s*pragma\s+once\s*$")
+_cond = re.compile(r"^\s*#\s*(?:if|ifdef|elif|else)\b")
 _incl = re.compile(r"^\s*#\s*include\s+\"([^\"]+)\"\s*$")
 _define = re.compile(r"^\s*#\s*define\s+([A-Za-z_]\w*)(\(([^)]*)\))?(.*)$")
 _dir = re.compile(r"^\s*#")
@@ -145,10 +156,14 @@ class Pre:
     Position of a token written in a source file = its own; position of a token that comes from a replacement list = the position
     of the macro name token of that invocation (recursively: of the outermost invocation written in a source file)."""
 
-    def __init__(self, files):
+    def __init__(self, files, predef=None):
         self.files = files
         self.macros = {}
+        for k, v in (predef or {}).items():         # command-line macros: name -> replacement text
+            self.macros[k] = (None, _pptok.findall(v))
         self.res = []
+        self.once = set()
+        self.dirlog = []        # one entry per #line directive executed: file, line (physical), n, name|None, macro, nbi, convdep
 
     def run(self, main):
         self.file(main, 0)
@@ -160,19 +175,55 @@ class Pre:
         data = self.files[name]
         T, lls = logical_lines(data)
         delta, presfile, directive = 0, name, False
+        dmac = nbi = convdep = False        # the directive in force: macro operands / number from __LINE__ / that while a #line was in force
+        conds = []                          # open #ifndef groups: True = taken
         pending = []
+        if name in self.once:
+            return
         for text, idx in lls:
             if not idx:
                 continue
             if _dir.match(text):
                 self.flush(pending); pending = []
                 first, last = T.line(idx[0]), T.line(idx[-1])
+                m = _ifndef.match(text)
+                if m:
+                    conds.append(m.group(1) not in self.macros); continue
+                if _endif.match(text):
+                    if not conds:
+                        raise ModelError("#endif without #ifndef")
+                    conds.pop(); continue
+                if _cond.match(text):
+                    raise ModelError("unmodelled conditional")
+                if not all(conds):
+                    continue
+                if _once.match(text):
+                    self.once.add(name); continue
                 m = _line.match(text)
+                mx = None if m else _linex.match(text)
                 if m:
                     delta = int(m.group(1)) - (last + 1)      # the line following the directive is line N
                     if m.group(2) is not None:
                         presfile = m.group(2)
-                    directive = True
+                    self.dirlog.append(dict(file=name, line=first, n=int(m.group(1)), name=m.group(2), macro=False, nbi=False, convdep=False))
+                    directive, dmac, nbi, convdep = True, False, False, False
+                    continue
+                if mx:
+                    # C11 6.10.4p5: the operands are macro-replaced; __LINE__/__FILE__ stand for the presumed position of the directive
+                    here = dict(file=name, phys=first, pres=first + delta, presfile=presfile, fphys=first, fpres=first + delta,
+                                directive=directive, via=None, ucn=False)
+                    ops = [t for t, _ in self.expand([(t, here) for t in _pptok.findall(mx.group(1))])]
+                    frombi = [t == "__LINE__" for t in ops]
+                    ops = [str(first + delta) if t == "__LINE__" else '"%s"' % presfile if t == "__FILE__" else t for t in ops]
+                    if not (1 <= len(ops) <= 2 and re.match(r"^[0-9]+$", ops[0]) and (len(ops) == 1 or re.match(r'^"[^"\\]*"$', ops[1]))):
+                        raise ModelError("#line operands do not expand to a line number and a file name: %r" % (ops,))
+                    self.dirlog.append(dict(file=name, line=first, n=int(ops[0]), name=ops[1][1:-1] if len(ops) == 2 else None, macro=True,
+                                            nbi=frombi[0], convdep=frombi[0] and directive, presfile_before=presfile))
+                    nbi, convdep = frombi[0], frombi[0] and directive
+                    delta = int(ops[0]) - (last + 1)
+                    if len(ops) == 2:
+                        presfile = ops[1][1:-1]
+                    directive, dmac = True, True
                     continue
                 m = _incl.match(text)
                 if m:
@@ -188,6 +239,8 @@ class Pre:
                         params = [x.strip() for x in m.group(3).split(",")] if m.group(3).strip() else []
                     self.macros[m.group(1)] = (params, body)
                 continue
+            if not all(conds):
+                continue
             first = T.line(idx[0])
             cache = {}
             for m in _pptok.finditer(text):
@@ -197,9 +250,11 @@ class Pre:
                 info = cache.get((p, u))
                 if info is None:       # shared by the tokens of one physical line; never modified (users copy)
                     info = cache[(p, u)] = dict(file=name, phys=p, pres=p + delta, presfile=presfile, fphys=first, fpres=first + delta,
-                                                directive=directive, via=None, ucn=u)
+                                                directive=directive, via=None, ucn=u, dmac=dmac, nbi=nbi, convdep=convdep)
                 pending.append((m.group(), info))
         self.flush(pending)
+        if conds:
+            raise ModelError("unterminated #ifndef in " + name)
 
     def expand(self, toks, depth=0):
         if depth > 40:
@@ -287,6 +342,15 @@ def expected(files, main="t.c"):
     logical line, directive = a #line precedes in this file, via = outermost macro the token came from (None: written in
     the file), ucn = a universal character name precedes in this file, lo/hi = extent of the statement."""
     return Pre(files).run(main)
+
+
+def expected_ex(files, main="t.c", predef=None):
+    """As expected(), with command-line macros {name: replacement text}; returns (probes, log of the #line directives executed).
+    Additional info keys: dmac = the #line in force had operands that needed macro replacement, nbi = its number came from __LINE__,
+    convdep = ... while another #line was in force (the value then depends on what that one made of its operand)."""
+    p = Pre(files, predef)
+    res = p.run(main)
+    return res, p.dirlog
 
 
 # --------------------------------------------------------------------------------------------------------------
@@ -389,11 +453,46 @@ def line_class(obs, info):
     return "other-line"
 
 
+def _observations(mode, text):
+    """[(pid, (file, line))] in output order; mode E: -E output, X: lines `pid line file` printed by the executed program"""
+    out = []
+    if mode == "E":
+        import pplex
+        for p, l, f in observe_E(pplex.lex(text)):
+            out.append((p, (norm(f, os.getcwd()) if f is not None else None, l)))
+    else:
+        for ln in text.splitlines():
+            w = ln.split(" ", 2)
+            if len(w) == 3 and w[0].isdigit():
+                out.append((int(w[0]), (norm(w[2], os.getcwd()), int(w[1]))))
+    return out
+
+
 if __name__ == "__main__":
-    # replay helper:  python3 c18_position.py E|D|S|X <observed file> <pid> <spec>   ; exit 1 iff the observation is
-    # not one of the acceptable (file, line) pairs given as  file:line[,file:line]
+    # replay helper:  python3 c18_position.py E|D|S|X <observed file> <pid>[@<occurrence>] <spec>   ; exit 1 iff the observation is
+    # not one of the acceptable (file, line) pairs given as  file:line[,file:line]  (without @: the last occurrence of the probe)
+    #   TE|TX <observed file> <observed file of the literal twin> <pid>@<occurrence> line|file : exit 1 iff the two observations differ
+    #   QE|QX <observed file> <pid> line|file : exit 1 iff the occurrences of the probe (repeated inclusion) do not all agree
     import sys
+    if sys.argv[1] in ("TE", "TX"):
+        pid, occ = (int(x) for x in sys.argv[4].split("@"))
+        sel = 1 if sys.argv[5] == "line" else 0
+        got = []
+        for path in sys.argv[2:4]:
+            o = [v for q, v in _observations(sys.argv[1][1], open(path, errors="replace").read()) if q == pid]
+            got.append(o[occ - 1][sel] if len(o) >= occ else None)
+        print("macro operands:", got[0], " literal operands:", got[1])
+        sys.exit(0 if got[0] == got[1] else 1)
+    if sys.argv[1] in ("QE", "QX"):
+        pid = int(sys.argv[3])
+        sel = 1 if sys.argv[4] == "line" else 0
+        o = [v[sel] for q, v in _observations(sys.argv[1][1], open(sys.argv[2], errors="replace").read()) if q == pid]
+        print("occurrences of vp%d:" % pid, o)
+        sys.exit(0 if len(set(o)) <= 1 else 1)
     mode, path, spec = sys.argv[1], sys.argv[2], sys.argv[4]
+    occ = None
+    if "@" in sys.argv[3]:
+        sys.argv[3], occ = sys.argv[3].split("@")[0], int(sys.argv[3].split("@")[1])
     pid = int(sys.argv[3].split("-")[-1])
     ok = set()
     for part in spec.split(","):
@@ -401,16 +500,10 @@ if __name__ == "__main__":
         ok.add((norm(f), int(l)))
     text = open(path, errors="replace").read()
     got = None
-    if mode == "E":
-        import pplex
-        for p, l, f in observe_E(pplex.lex(text)):
-            if p == pid:
-                got = (norm(f, os.getcwd()) if f is not None else None, l)
-    elif mode == "X":
-        for ln in text.splitlines():
-            w = ln.split(" ", 2)
-            if len(w) == 3 and w[0] == str(pid):
-                got = (norm(w[2], os.getcwd()), int(w[1]))
+    if mode in ("E", "X"):
+        o = [v for q, v in _observations(mode, text) if q == pid]
+        if o and (occ is None or len(o) >= occ):
+            got = o[-1] if occ is None else o[occ - 1]
     elif mode == "D":
         d = observe_diag(text)
         if d:
